@@ -46,6 +46,9 @@ Json gen(sim::Rng& rng, int tier)
     // swarm: in a quarter of the runs the server closes most connections after the response and nothing
     // times out, so that connections are torn down and re-established while requests are handed over
     bool closing_server = rng.chance(0.25);
+    // in part of the runs the application talks to two hosts through the one client: the connection limit is per
+    // host, and a connection that becomes free serves only the requests waiting for its own host
+    bool two_hosts = rng.chance(0.3);
     for (int k = 0; k < total; ++k) {
         Json q = Json::object();
         q["tag"] = static_cast<long long>(++tag);
@@ -62,9 +65,13 @@ Json gen(sim::Rng& rng, int tier)
         q["gap_us"] = static_cast<int>(20 + rng.below(3000));
         q["issue_delay_us"] = static_cast<int>(rng.below(rng.chance(0.5) ? 100 : 20000));
         q["body_len"] = static_cast<int>(rng.below(600));
+        // now and then a response of several receive buffers (the client reads 4 KiB at a time)
+        if ((beh == "immediate" || beh == "delayed" || beh == "close-after") && rng.chance(0.08)) q["body_len"] = static_cast<int>(4000 + rng.below(16000));
+        if (two_hosts) q["host"] = static_cast<int>(rng.below(2));
         ji.a[rng.below(static_cast<u64>(issuers))].push(q);
     }
     p["issuers"] = ji;
+    p["hosts"] = two_hosts ? 2 : 1;
     // some issuers work sequentially: the next request goes out the moment the previous one is settled - onto the
     // connection that has just become free (and that a closing server is about to take away)
     if (rng.chance(closing_server ? 0.7 : 0.3)) {
@@ -113,6 +120,8 @@ struct ReqState {
 
 struct Server {
     int port = 9080;
+    int host_index = 0;
+    int wrong_host = 0;
     std::map<u64, ReqState*> by_tag;
     std::map<u64, Json> cfg;
     struct Conn {
@@ -147,7 +156,7 @@ struct Server {
         auto c = std::make_shared<Conn>();
         c->sock = s;
         c->reader.requests = true;
-        c->id = accepted++;
+        c->id = host_index * 10000 + accepted++;
         conns.push_back(c);
         c->foreign = foreign_fds.count(s->peer_fd()) > 0;
         if (!c->foreign) {
@@ -206,10 +215,9 @@ struct Server {
         if (!c->open) return;
         Conn::Out& o = c->out.front();
         size_t n = o.piece ? std::min(o.piece, o.data.size() - off) : o.data.size() - off;
-        c->sock->send(o.data.data() + off, n);
-        off += n;
+        off += c->sock->send(o.data.data() + off, n); // (short when the send buffer is full: the rest follows)
         if (off < o.data.size()) {
-            sim::schedule_in(o.gap, [this, c, off] { send_piece(c, off); }, "server.dribble");
+            sim::schedule_in(std::max<i64>(o.gap, 50000), [this, c, off] { send_piece(c, off); }, "server.dribble");
             return;
         }
         if (o.rs) o.rs->srv_answered_at = sim::now_ns();
@@ -231,6 +239,7 @@ struct Server {
         }
         ReqState* rs = it->second;
         const Json& q = cfg[tag];
+        if (std::max<i64>(0, std::min<i64>(1, q.num("host", 0))) != host_index) wrong_host++;
         rs->srv_received_at = sim::now_ns();
         rs->srv_conn = c->id;
         std::string beh = q.str("behaviour", "immediate");
@@ -288,6 +297,23 @@ void run(const Json& plan)
             per_issuer[i].push_back(&rs);
         }
     srv.start();
+    // a second host (another port of the loopback address): its own pool of connections and its own overflow queue
+    const bool two_hosts = plan.num("hosts", 1) >= 2;
+    Server srv2;
+    srv2.port = srv.port + 1;
+    srv2.host_index = 1;
+    if (two_hosts) {
+        srv2.by_tag = srv.by_tag;
+        srv2.cfg = srv.cfg;
+        srv2.start();
+        r.probe("two-hosts");
+    }
+    auto port_of = [&](u64 tag) { return two_hosts && srv.cfg[tag].num("host", 0) >= 1 ? srv2.port : srv.port; };
+    auto all_conns = [&] {
+        std::vector<std::shared_ptr<Server::Conn>> v = srv.conns;
+        v.insert(v.end(), srv2.conns.begin(), srv2.conns.end());
+        return v;
+    };
 
     const int max_conn = std::max(1, std::min(8, static_cast<int>(plan.num("max_conn", 1))));
     Http::Experimental::Client client;
@@ -369,7 +395,7 @@ void run(const Json& plan)
                 } else if (d > 0)
                     sim::sleep_ns(d);
                 prev = rs;
-                auto rb = client.get("http://127.0.0.1:" + std::to_string(srv.port) + "/r/" + std::to_string(rs->tag));
+                auto rb = client.get("http://127.0.0.1:" + std::to_string(port_of(rs->tag)) + "/r/" + std::to_string(rs->tag));
                 if (rs->timeout_ms > 0) rb.timeout(std::chrono::milliseconds(rs->timeout_ms));
                 {
                     sim::IgnoreScope ig;
@@ -505,7 +531,7 @@ void run(const Json& plan)
     // does not cover that, so only requests that were never written count. All requests of a run have the same length.)
     if (!hostile_mode && !any_never && !unsettled_unreceived.empty()) {
         size_t len = 0, received = 0;
-        for (auto& c : srv.conns)
+        for (auto& c : all_conns())
             for (auto& m : c->reader.done) {
                 len = std::max(len, m.raw_len);
                 received++;
@@ -526,9 +552,10 @@ void run(const Json& plan)
     // The limit is on the connections the client has at one time: its sockets from socket() to close(). (What the server
     // sees established lags behind by the latency of a FIN when the client itself closes a connection and opens the next.)
     {
+      for (int hport = srv.port; hport <= (two_hosts ? srv2.port : srv.port); ++hport) {
         std::vector<std::pair<i64, int>> ev;
         for (auto& st : simk::sock_stats()) {
-            if (other.ordinals.count(st.ordinal)) continue;
+            if (other.ordinals.count(st.ordinal) || st.port != hport) continue;
             ev.emplace_back(st.opened_at, +1);
             if (st.closed_at >= 0) ev.emplace_back(st.closed_at, -1);
         }
@@ -538,24 +565,29 @@ void run(const Json& plan)
             open_now += e.second;
             max_open = std::max(max_open, open_now);
         }
-        r.stats["max_client_sockets"] = max_open;
+        r.stats[hport == srv.port ? "max_client_sockets" : "max_client_sockets_host2"] = max_open;
+        if (max_open >= max_conn && hport == srv2.port) r.probe("connection-limit-reached-on-second-host");
         if (max_open > max_conn)
         {
             std::string lst;
             for (auto& st : simk::sock_stats())
-                if (!other.ordinals.count(st.ordinal)) lst += " [fd " + std::to_string(st.fd) + " " + std::to_string(st.opened_at / 1000) + ".." + (st.closed_at >= 0 ? std::to_string(st.closed_at / 1000) : std::string("open")) + " us]";
-            r.violation("C15.connections:more-than-configured", "the client had " + std::to_string(max_open) + " sockets to the host open at once with a limit of " + std::to_string(max_conn) + " per host:" + lst);
+                if (!other.ordinals.count(st.ordinal) && st.port == hport) lst += " [fd " + std::to_string(st.fd) + " " + std::to_string(st.opened_at / 1000) + ".." + (st.closed_at >= 0 ? std::to_string(st.closed_at / 1000) : std::string("open")) + " us]";
+            r.violation("C15.connections:more-than-configured", "the client had " + std::to_string(max_open) + " sockets to the host at port " + std::to_string(hport) + " open at once with a limit of " + std::to_string(max_conn) + " per host:" + lst);
         }
+      }
     }
     if (srv.max_established >= max_conn && max_conn > 1) r.probe("connection-limit-reached");
-    if (srv.accepted > max_conn) r.probe("reconnected");
+    if (srv.accepted > max_conn || srv2.accepted > max_conn) r.probe("reconnected");
+    for (auto& rs : reqs)
+        if (rs.fulfilled && rs.body.size() > 4096) r.probe("response-larger-than-a-receive-buffer");
     for (auto& a : simk::anomalies())
         if (a.kind == "send.ebadf" || a.kind == "recv.ebadf") r.probe("syscall-on-closed-descriptor");
-    if (srv.unknown_requests) r.violation("C15.wire:unexpected-request", std::to_string(srv.unknown_requests) + " request(s) arrived at the server that the application never issued (or a request was mangled)");
-    for (auto& c : srv.conns)
+    if (srv.wrong_host + srv2.wrong_host) r.violation("C15.wire:request-sent-to-another-host", std::to_string(srv.wrong_host + srv2.wrong_host) + " request(s) arrived at a host other than the one they were addressed to");
+    if (srv.unknown_requests + srv2.unknown_requests) r.violation("C15.wire:unexpected-request", std::to_string(srv.unknown_requests + srv2.unknown_requests) + " request(s) arrived at the server that the application never issued (or a request was mangled)");
+    for (auto& c : all_conns())
         if (c->reader.broken) r.violation("C15.wire:malformed-request", "the client wrote bytes that are not an HTTP request: " + c->reader.broken_why);
 
-    for (auto& c : srv.conns)
+    for (auto& c : all_conns())
         if (c->foreign && c->reader.done.size() + (c->reader.broken ? 1 : 0) > 0) r.probe("request-on-a-connection-that-is-not-the-clients");
     } // end of the oracle's ignore scope
     if (other_thread.joinable()) {
@@ -575,6 +607,10 @@ void run(const Json& plan)
     client.shutdown();
     simk::ActorSock::unlisten(srv.port);
     for (auto& c : srv.conns) srv.gone(c);
+    if (two_hosts) {
+        simk::ActorSock::unlisten(srv2.port);
+        for (auto& c : srv2.conns) srv2.gone(c);
+    }
 }
 
 // ---- hostile server (C03, response side) -----------------------------------------------------------------
